@@ -1279,7 +1279,7 @@ pub fn dwarfed_inputs(seed: u64, n: u64) -> Vec<Input> {
     for k in 0..n {
         let (g, _) = gen::gen_valid(seed.wrapping_mul(31).wrapping_add(k), &o);
         let version = if k % 2 == 0 { 4 } else { 5 };
-        if let Some(b) = crate::dwarf::attach(&g.bytes, crate::dwarf::DwarfOpts { version, spanning: false }) {
+        if let Some(b) = crate::dwarf::attach(&g.bytes, crate::dwarf::DwarfOpts { version, spanning: false, nested: k % 4 >= 2 }) {
             out.push(Input { id: format!("dwarfed-{}", k), bytes: b, source: format!("dwarf:gen:{}:{}:v{}", seed, k, version) });
         }
     }
@@ -1801,7 +1801,7 @@ pub fn par_case(inp: &Input) -> Value {
     // a second run with everything a schedule could disturb beyond the code bytes: the code transform and the index map
     // handed to custom sections, and the DWARF sections rewritten from them (synthesized line rows for every instruction)
     let cfg2 = Cfg { probe: true, xform: true, dwarf: true, ..Default::default() };
-    let with_dwarf = crate::dwarf::attach(&inp.bytes, crate::dwarf::DwarfOpts { version: 4, spanning: false }).unwrap_or_else(|| inp.bytes.clone());
+    let with_dwarf = crate::dwarf::attach(&inp.bytes, crate::dwarf::DwarfOpts { version: 4, spanning: false, nested: inp.bytes.len() % 2 == 0 }).unwrap_or_else(|| inp.bytes.clone());
     let rt2 = run::roundtrip(&with_dwarf, &cfg2, 0);
     let d2 = if rt2.outcome == "ok" {
         format!("{}/{}/{}", absmod::fnv(&rt2.out), absmod::fnv(serde_json::to_string(&rt2.xform).unwrap_or_default().as_bytes()), absmod::fnv(serde_json::to_string(&rt2.emit).unwrap_or_default().as_bytes()))
@@ -1984,11 +1984,16 @@ fn norm_subs(subs: Vec<Value>) -> Vec<Value> {
 }
 
 pub fn dwarf_case(inp: &Input, version: u16, spanning: bool, variant: &str) -> Option<Value> {
-    let with = crate::dwarf::attach(&inp.bytes, crate::dwarf::DwarfOpts { version, spanning })?;
+    dwarf_case_full(inp, version, spanning, false, variant)
+}
+
+/// `nested`: subprograms inside a namespace / between other DIEs, with parameters, a lexical block and a variable as children
+pub fn dwarf_case_full(inp: &Input, version: u16, spanning: bool, nested: bool, variant: &str) -> Option<Value> {
+    let with = crate::dwarf::attach(&inp.bytes, crate::dwarf::DwarfOpts { version, spanning, nested })?;
     // version 5, per-function sequences: every other module gets a row that names file 0
     let with = if version >= 5 && !spanning && inp.bytes.len() % 2 == 0 { crate::dwarf::patch_row_to_file0(&with).unwrap_or(with) } else { with };
-    let id = format!("{}~v{}{}~{}", inp.id, version, if spanning { "span" } else { "" }, variant);
-    let src = format!("dwarf:{}:v{}:{}:{}", inp.source, version, spanning, variant);
+    let id = format!("{}~v{}{}{}~{}", inp.id, version, if spanning { "span" } else { "" }, if nested { "nest" } else { "" }, variant);
+    let src = format!("dwarf:{}:v{}:{}{}:{}", inp.source, version, spanning, if nested { ":nested" } else { "" }, variant);
     let cfg = Cfg { dwarf: true, xform: true, probe: true, ..Default::default() };
     let parsed = match run::parse(&with, &cfg) {
         Ok(p) => p,
